@@ -268,15 +268,15 @@ def modelled_workloads(rng, tier):
     w += ["toknew %d" % n for n in (0, 1, 32, 1000)]
     w += ["copy " + dump(t) for t in TREES]
     w += ["ptrset %s %s %s" % (dump(t), hx(p), dump(v)) for t, p, v in PTRSETS]
+    for _ in range(25 if tier == "quick" else 200):
+        w.append("copy " + dump(rand_val(rng, 3, plain_double=True, wide=rng.chance(0.3))))
+        t, p, v = rng.choice(PTRSETS)
+        w.append("ptrset %s %s %s" % (dump(t), hx(p), dump(rand_val(rng, 2))))
     if tier == "thorough":
-        for _ in range(60):
-            w.append("copy " + dump(rand_val(rng, 3, plain_double=True, wide=True)))
         for _ in range(40):
             w.append("aadd %d" % rng.randrange(0, 300))
             w.append("oadd %d %s %d" % (rng.randrange(0, 200), hx(rng.choice([b"kx", b"k1", b"k7"])), rng.choice([0, 0, 4])))
             w.append("lhins %d %d" % (rng.choice([1, 2, 3, 5, 16, 50, 100]), rng.randrange(0, 60)))
-        for t, p, v in PTRSETS:
-            w.append("ptrset %s %s %s" % (dump(t), hx(p), dump(rand_val(rng, 2))))
     return w
 
 
@@ -297,9 +297,15 @@ def other_workloads(rng, tier):
         w.append("construct " + dump(t))
     for t, p, v in PTRSETS[:8]:
         w.append("ptrsetf %s %s %s" % (dump(t), hx(p), dump(v)))
+    for _ in range(20 if tier == "quick" else 0):
+        w.append("parse %s 0 0 %s" % (rng.choice("ve"), hx(to_json(rand_val(rng, 3, wide=rng.chance(0.2))))))
+        d = to_json(rand_val(rng, 2))
+        w.append("parse s 0 %d %s" % (rng.randrange(0, len(d) + 1), hx(d)))
+        w.append("construct " + dump(rand_val(rng, 3, plain_double=True)))
+        w.append("ser %s %d" % (dump(rand_val(rng, 3)), rng.choice(SER_FLAGS)))
     if tier == "thorough":
-        for _ in range(80):
-            v = rand_val(rng, 3, wide=True)
+        for _ in range(300):
+            v = rand_val(rng, 3, wide=rng.chance(0.3))
             w.append("parse %s 0 0 %s" % (rng.choice("ve"), hx(to_json(v))))
             d = to_json(rand_val(rng, 3))
             w.append("parse s 0 %d %s" % (rng.randrange(0, len(d) + 1), hx(d)))
@@ -397,8 +403,6 @@ def compare_line(case, i, il, m, s, tags):
     _outcomes[name + ":" + oc] = _outcomes.get(name + ":" + oc, 0) + 1
     if il == "bad-op" or m == "bad-op":
         return ("model", "malformed line")
-    if m.startswith("FAULT"):
-        return ("spec", "the Lean model reaches a fault here (invalid free / unsupported shape): " + m)
     bad = verdict(spec)
     if bad:
         if il == m and tags and all(t in _known() for t in tags):
@@ -409,6 +413,10 @@ def compare_line(case, i, il, m, s, tags):
             for t in tags:
                 _reported[t] = _reported.get(t, 0) + 1
         return ("spec", "; ".join(bad))
+    if m.startswith("FAULT"):
+        # the model does not cover this code shape (a structural fact of st_alloc.py is false) or would free a
+        # dead block: the correspondence is lost; the property itself is judged by the harness's oracle above
+        return ("model", "the Lean allocation model reaches a fault here: " + m)
     if m != "*" and il != m:
         return ("model", "implementation differs from the Lean allocation model (result, calls, errno or request trace)")
     return None
